@@ -117,9 +117,10 @@ def c12_tree():
 
 class _Ctx:
     def __init__(self, env, res, tr):
-        if not env.cache.get("c12_loaded"):
-            env.load_tree(c12_tree())
-            env.cache["c12_loaded"] = True
+        from ..core import load_fixed_tree
+        self.broken = load_fixed_tree(env, "c12_loaded", c12_tree, "C12")
+        if self.broken:
+            return
         self.srv = importlib.import_module("eolib.protocol._generated.net.server")
         self.net = importlib.import_module("eolib.protocol._generated.net")
         self.mod = importlib.import_module("eolib.packet.sequence_start")
@@ -314,6 +315,11 @@ def execute(plan, env):
     res.evaluations = 0
     tr = Trace(keep=env.keep_trace)
     ctx = _Ctx(env, res, tr)
+    if ctx.broken:
+        res.violation = ctx.broken
+        res.digest = tr.digest()
+        res.evaluations = 1
+        return res
     index = plan.get("seed_index", 0)
     if "outcome" in plan:  # minimised replay: one scripted outcome
         ctx.one(plan["outcome"][0], plan["outcome"][1])
